@@ -46,7 +46,8 @@ GenNext ==
                      /\ \E e \in ForeignMenu : PReDelete(p, e)
                      /\ Log(PodOp("redelete", p))
 GenSpec  == GenInit /\ [][GenNext]_gvars
-GenView  == <<mvars, last>>
+GenView  == <<mvars, last, Len(hist)>>
 GenBound == Len(hist) <= K
-GenPrint == PrintT(ToJson(hist))
+\* (TLC evaluates invariants also on successors that the CONSTRAINT then discards: print only inside the bound)
+GenPrint == Len(hist) <= K => PrintT(ToJson(hist))
 =============================================================================
